@@ -152,6 +152,15 @@ def own_distance(metric, p, q):
         return sum(abs(b - a) for a, b in zip(p, q))
     if metric == 'chebyshev':
         return max([abs(b - a) for a, b in zip(p, q)], default=0.0)
+    if metric == 'wrap':
+        t = 0.0
+        for a, b in zip(p, q):
+            g = abs(b - a) % 4.0
+            g = min(g, 4.0 - g)
+            t = t + g * g
+        return math.sqrt(t)
+    if metric == 'half':
+        return 0.5 * own_distance(None, p, q)
     s = 0.0
     for a, b in zip(p, q):
         s = s + (b - a) * (b - a)
